@@ -1,5 +1,6 @@
 import TmVerif.Proofs.LRSoundPanic
 import TmVerif.Proofs.LRCompleteAccept
+import TmVerif.Proofs.LRErrPosFinal
 /-!
 C01 — soundness of the table-driven LR parser runtime (`gen/templates/go_parser.go.tmpl`, model
 `TmVerif.LR.run`) with respect to the decidable certificate check `certOk` (Model/LRSound.lean),
@@ -13,6 +14,11 @@ Completeness (second half of the file): whenever `complOk g t cc = true` (Model/
 LR(1)-style item certificate, also evaluated on the real tables), every sentence is accepted
 (`C01_lr_complete`, `C01_lr_complete_prefix`); with both certificates the accepted token strings
 are exactly the language (`C01_lr_exact`).
+
+Error position (third part): with the viable-prefix certificate `viableOk g t vc = true`
+(Model/LRViable.lean) in addition, a reported syntax error lies at the first token at which the
+consumed prefix stops being a prefix of a sentence (`C01_lr_error_position`); the productivity
+requirement inside `viableOk` is necessary (`C01_error_position_unproductive_fails`, real tables).
 -/
 namespace TmVerif.LRSound
 open TmVerif.LR TmVerif.CFG
@@ -312,5 +318,193 @@ example : complOk exG2 { exT2 with action := #[-1,-1,-2,-3,-1,-1,2,0,-1,-2] } ex
   decide +kernel
 
 end completeness
+
+/-! ## Error position (viable-prefix certificate `viableOk`, Model/LRViable.lean)
+
+`viableOk g t vc = true` (ordered LR(0) items per table state: start items, kernel items with their
+predecessors along every relevant transition, closure items justified by earlier items, complete
+items where the state reduces; plus a productivity witness for every nonterminal) is evaluated by
+the driver on the REAL `lalr.Tables` of every sampled grammar, together with the two other
+certificates. -/
+section errorPosition
+open TmVerif.LRComplete TmVerif.LRViable
+
+/-- Error position: for tables passing the three certificate checks, if the runtime model stops
+with a syntax error after `k` shifts (`k = nshift c.evs`), then
+(a) `k` tokens of the text were shifted (`k ≤ |w|`) and the reported range is that of token `k`
+    (the end-of-input token at `endOff` when `k = |w|`);
+(b) the consumed prefix `w[0..k)` is a prefix of a sentence of input `i`;
+(c) with the offending token it is not: no sentence starts with `w[0..k]` (when `k < |w|`), and
+    `w` itself is not a sentence (in particular when `k = |w|`).
+Holds for inputs with and without the end-of-input requirement. -/
+theorem C01_lr_error_position (g : Grammar) (t : Tables) (cert : Cert) (cc : CCert) (vc : VCert)
+    (inp : Input) (i fuel off endo : Nat) (c : Cfg)
+    (hs : certOk g t cert = true) (hc : complOk g t cc = true) (hv : viableOk g t vc = true)
+    (htok : ∀ tk ∈ inp.toks.toList, 0 < tk.sym ∧ tk.sym < (t.nTerms : Int))
+    (hi : i < g.inputs.size)
+    (hrun : run t inp i fuel = (Result.syntaxError off endo, c)) :
+    nshift c.evs ≤ (inp.toks.toList.map (fun tk => tk.sym.toNat)).length ∧
+    off = (inp.tok (nshift c.evs)).off ∧ endo = (inp.tok (nshift c.evs)).endo ∧
+    (∃ z, Sentence g i ((inp.toks.toList.map (fun tk => tk.sym.toNat)).take (nshift c.evs) ++ z)) ∧
+    (nshift c.evs < (inp.toks.toList.map (fun tk => tk.sym.toNat)).length →
+      ¬ ∃ z, Sentence g i
+        ((inp.toks.toList.map (fun tk => tk.sym.toNat)).take (nshift c.evs + 1) ++ z)) ∧
+    ¬ Sentence g i (inp.toks.toList.map (fun tk => tk.sym.toNat)) := by
+  have hcf := certFacts hs
+  have hf := complFacts hc
+  have hvf := viableFacts hv
+  have hns : ¬ Sentence g i (word inp) := err_not_sentence hf htok hrun
+  have hext : nshift c.evs < inp.toks.size →
+      ¬ ∃ z, Sentence g i ((word inp).take (nshift c.evs + 1) ++ z) :=
+    err_not_extension hcf hf htok hi hrun
+  have hgi : g.inputs[i]? = some g.inputs[i] := Array.getElem?_eq_getElem hi
+  have hrun' := hrun
+  unfold run at hrun'
+  cases hfin : t.finalStates[i]? with
+  | none => rw [hfin] at hrun'; cases hrun'
+  | some fin =>
+    rw [hfin] at hrun'
+    simp only at hrun'
+    obtain ⟨c0, hinv0, _, hk, hoff, hendo⟩ :=
+      runLoop_err hcf hvf htok hi fin fuel _ c off endo (vinv_init g t vc i inp) hrun'
+    have hpre := vinv_prefix hcf hvf hi c0 hinv0
+    rw [← hk] at hpre hoff hendo
+    obtain ⟨hle, hz⟩ := prefix_sentence (wfFacts hcf.wf) hgi htok hpre hns
+    have hlen : (inp.toks.toList.map (fun tk => tk.sym.toNat)).length = inp.toks.size :=
+      word_length inp
+    exact ⟨by rw [hlen]; exact hle, hoff, hendo, hz, fun h => hext (by rw [← hlen]; exact h), hns⟩
+
+/-! Non-vacuity: the real tables `exT2` of `E: T '+' E | T ; T: '(' E ')' | id ;` with the three
+certificates (`exVC2` computed by `mkVCert`); on `id + )` the model reports the error at token 2
+(offsets 2..3), and the theorem yields that `id +` is a prefix of a sentence while nothing starting
+with `id + )` is one. -/
+private def exCert2 : Cert :=
+  { past := #[[], [3], [5], [7], [6, 3], [2, 7], [4, 6, 3], [6, 2, 7], [6], [0, 6]],
+    reach := #[[9, 7, 6, 5, 4, 3, 8, 2, 1, 0]] }
+private def exVC2 : VCert :=
+  { items := #[[(4, 0), (0, 0), (1, 0), (2, 0), (3, 0)], [(2, 1), (0, 0), (1, 0), (2, 0), (3, 0)],
+               [(3, 1)], [(0, 1), (1, 1)], [(2, 2)], [(0, 2), (0, 0), (1, 0), (2, 0), (3, 0)],
+               [(2, 3)], [(0, 3)], [(4, 1)], [(4, 2)]],
+    order := [7, 6] }
+private def exInp3 : Input := { toks := #[⟨5, 0, 1⟩, ⟨2, 1, 2⟩, ⟨4, 2, 3⟩], endOff := 3 }
+
+example : certOk exG2 exT2 exCert2 = true ∧ viableOk exG2 exT2 exVC2 = true ∧
+    (mkVCert exG2 exT2).toOption = some exVC2 ∧
+    (run exT2 exInp3 0 30).1 = Result.syntaxError 2 3 ∧ nshift (run exT2 exInp3 0 30).2.evs = 2 := by
+  refine ⟨by decide +kernel, by decide +kernel, by decide +kernel, by decide +kernel,
+    by decide +kernel⟩
+
+example : (∃ z, Sentence exG2 0 ([5, 2] ++ z)) ∧ ¬ ∃ z, Sentence exG2 0 ([5, 2, 4] ++ z) := by
+  have h := C01_lr_error_position exG2 exT2 exCert2 exCC2 exVC2 exInp3 0 30 2 3
+    (run exT2 exInp3 0 30).2 (by decide +kernel) (by decide +kernel) (by decide +kernel)
+    (by decide +kernel) (by decide +kernel) (Prod.ext (by decide +kernel) rfl)
+  have hk : nshift (run exT2 exInp3 0 30).2.evs = 2 := by decide +kernel
+  rw [hk] at h
+  exact ⟨h.2.2.2.1, h.2.2.2.2.1 (by decide)⟩
+
+/-- the certificate check rejects an automaton with a transition that nothing justifies: the same
+tables with the goto of state 0 on `T` redirected to state 2 fail condition (K). -/
+example : viableOk exG2
+    { exT2 with fromTo := #[8,9,3,5,0,1,1,1,5,1,4,6,0,2,1,2,5,2,0,8,1,4,5,7,0,2,1,3,5,3] }
+    exVC2 = false := by decide +kernel
+
+/-! ### The hypothesis "every nonterminal is productive" is needed
+
+`S: a | b X ; X: X c ;` (terminals 2 `a`, 3 `b`, 4 `c`; `X` derives no terminal string) is
+conflict-free; the REAL compiler accepts it (harness start-up probe, token
+`[C01-unproductive-error-position]`) and these are its tables. Both other certificates hold; on
+`b` the parser shifts `b` and reports the error at token 1, although no sentence starts with `b`:
+clause (b) fails, and no viable-prefix certificate exists for these tables. -/
+private def wG : Grammar :=
+  { nTerms := 5, nSyms := 7, rules := #[⟨5, [2], 0⟩, ⟨5, [3, 6], 0⟩, ⟨6, [6, 4], 0⟩],
+    inputs := #[⟨5, true⟩] }
+private def wT : Tables :=
+  { nTerms := 5, action := #[-1,0,-1,-3,2,-1,-2], lalr := #[4,-1,0,1,-1,-2],
+    goto_ := #[0,2,2,4,6,8,10,12], fromTo := #[5,6,0,1,0,2,3,4,0,5,2,3],
+    ruleLen := #[1,2,2], ruleSymbol := #[5,5,6], finalStates := #[6] }
+private def wCert : Cert :=
+  { past := #[[], [2], [3], [6, 3], [4, 6, 3], [5], [0, 5]], reach := #[[6, 4, 3, 5, 2, 1, 0]] }
+private def wCC : CCert :=
+  { items := #[[⟨0, 0, 1⟩, ⟨1, 0, 1⟩, ⟨3, 0, 0⟩], [⟨0, 1, 1⟩], [⟨1, 1, 1⟩, ⟨2, 0, 17⟩],
+               [⟨1, 2, 1⟩, ⟨2, 1, 17⟩], [⟨2, 2, 17⟩], [⟨3, 1, 0⟩], [⟨3, 2, 0⟩]],
+    nullable := [], first := #[0, 0, 0, 0, 0, 12, 0] }
+private def wInp : Input := { toks := #[⟨3, 0, 1⟩], endOff := 1 }
+
+private theorem wG_rules {r : Rule} (h : r ∈ wG.rules.toList) :
+    r = ⟨5, [2], 0⟩ ∨ r = ⟨5, [3, 6], 0⟩ ∨ r = ⟨6, [6, 4], 0⟩ := by
+  simpa [wG] using h
+
+mutual
+private theorem wX_empty : ∀ {Y : Nat} {v : List Nat}, Derives wG Y v → Y = 6 → False
+  | _, _, .term a ha, h => by
+    have : wG.nTerms = 5 := rfl
+    omega
+  | _, _, .rule r w hm hs, h => by
+    rcases wG_rules hm with e | e | e
+    · rw [e] at h; cases h
+    · rw [e] at h; cases h
+    · exact wXseq_empty hs (by rw [e])
+private theorem wXseq_empty : ∀ {α v : List Nat}, DerivesSeq wG α v →
+    ∀ {rest : List Nat}, α = 6 :: rest → False
+  | _, _, .nil, _, h => by cases h
+  | _, _, .cons X α u v hX hα, _, h => by
+    injection h with h1 _
+    exact wX_empty hX h1
+end
+
+private theorem w_no_b (z : List Nat) : ¬ Sentence wG 0 (3 :: z) := by
+  rintro ⟨gi, hgi, hD⟩
+  have hg : gi = ⟨5, true⟩ := by
+    have : wG.inputs[0]? = some ⟨5, true⟩ := rfl
+    rw [this] at hgi
+    injection hgi with h
+    exact h.symm
+  subst hg
+  rcases derives_inv hD with ⟨h, _⟩ | ⟨r, hm, hl, hs⟩
+  · exact absurd h (by decide)
+  · rcases wG_rules hm with e | e | e
+    · rw [e] at hs
+      obtain ⟨u, v, hw, hX, _⟩ := derivesSeq_cons_inv hs
+      rcases derives_inv hX with ⟨_, hu⟩ | ⟨r', hm', hl', _⟩
+      · rw [hu] at hw
+        injection hw with h1 _
+        cases h1
+      · rcases wG_rules hm' with e' | e' | e' <;> rw [e'] at hl' <;> cases hl'
+    · rw [e] at hs
+      obtain ⟨u, v, _, _, hrest⟩ := derivesSeq_cons_inv hs
+      exact wXseq_empty hrest rfl
+    · rw [e] at hl; cases hl
+
+/-- Without productivity the error-position clause is false, of the real tables: both other
+certificates hold, the run on `b` stops with a syntax error after shifting one token, yet no
+sentence starts with `b` — and consequently no viable-prefix certificate passes the check. -/
+theorem C01_error_position_unproductive_fails :
+    ∃ (g : Grammar) (t : Tables) (cert : Cert) (cc : CCert) (inp : Input) (off endo : Nat)
+      (c : Cfg),
+      certOk g t cert = true ∧ complOk g t cc = true ∧
+      (∀ tk ∈ inp.toks.toList, 0 < tk.sym ∧ tk.sym < (t.nTerms : Int)) ∧
+      run t inp 0 20 = (Result.syntaxError off endo, c) ∧ nshift c.evs = 1 ∧
+      (¬ ∃ z, Sentence g 0
+        ((inp.toks.toList.map (fun tk => tk.sym.toNat)).take (nshift c.evs) ++ z)) ∧
+      ∀ vc : VCert, viableOk g t vc = false := by
+  have hk : nshift (run wT wInp 0 20).2.evs = 1 := by decide +kernel
+  have hrun : run wT wInp 0 20 = (Result.syntaxError 1 1, (run wT wInp 0 20).2) :=
+    Prod.ext (by decide +kernel) rfl
+  have hno : ¬ ∃ z, Sentence wG 0
+      ((wInp.toks.toList.map (fun tk => tk.sym.toNat)).take
+        (nshift (run wT wInp 0 20).2.evs) ++ z) := by
+    rw [hk]
+    rintro ⟨z, hz⟩
+    exact w_no_b z hz
+  refine ⟨wG, wT, wCert, wCC, wInp, 1, 1, (run wT wInp 0 20).2, by decide +kernel,
+    by decide +kernel, by decide +kernel, hrun, hk, hno, ?_⟩
+  intro vc
+  cases hv : viableOk wG wT vc with
+  | false => rfl
+  | true =>
+    exact absurd (C01_lr_error_position wG wT wCert wCC vc wInp 0 20 1 1 _ (by decide +kernel)
+      (by decide +kernel) hv (by decide +kernel) (by decide +kernel) hrun).2.2.2.1 hno
+
+end errorPosition
 
 end TmVerif.LRSound
